@@ -376,10 +376,15 @@ CrcBit(c) ==
   LET h == c[1] \div 2
       l == (c[2] \div 2) + ((c[1] % 2) * 32768)
   IN IF c[2] % 2 = 1 THEN <<h ^^ 60856, l ^^ 33568>> ELSE <<h, l>>          \* 0xEDB8 8320
+\* (`IF d[1] < 0` is never true: the test FORCES d before the recursive call.  Arguments are lazy in TLC; unforced,
+\*  the value of every step hangs on the one before it and the whole chain - 8 x length deep - is evaluated at the
+\*  bottom of the recursion.  The ASSUME below is evaluated by TLC's main thread, which has the small default stack:
+\*  about two of three starts ended in a StackOverflowError re-wrapped at every level - a start-up that never ends.)
 RECURSIVE CrcBits(_, _)
-CrcBits(c, n) == IF n = 0 THEN c ELSE CrcBits(TLCEval(CrcBit(c)), n - 1)      \* (TLCEval: no chains of lazy values)
+CrcBits(c, n) == IF n = 0 THEN c ELSE LET d == CrcBit(c) IN IF d[1] < 0 THEN d ELSE CrcBits(d, n - 1)
 RECURSIVE CrcRun(_, _)
-CrcRun(c, s) == IF s = <<>> THEN c ELSE CrcRun(TLCEval(CrcBits(<<c[1], c[2] ^^ Head(s)>>, 8)), Tail(s))
+CrcRun(c, s) == IF s = <<>> THEN c
+                ELSE LET d == CrcBits(<<c[1], c[2] ^^ Head(s)>>, 8) IN IF d[1] < 0 THEN d ELSE CrcRun(d, Tail(s))
 Crc32(s) == LET c == CrcRun(<<65535, 65535>>, s) IN <<c[1] ^^ 65535, c[2] ^^ 65535>>
 HexDigit(n) == IF n < 10 THEN 48 + n ELSE 55 + n
 RECURSIVE HexNum(_)
